@@ -4,11 +4,17 @@
    arbitrary bytes (including content that itself ends in CR LF, NUL bytes, empty sections)
    written as  body [CRLF] (file CRLF)*  is read back exactly under the sizes announced in the
    Body/File headers (C09_sections, C09_files); short sections and negative sizes are errors;
-   the serialised layout (C09_layout).  The header part (net/textproto.ReadMIMEHeader is
-   standard-library code, modelled) and the full statement below are decided per run by the
-   correspondence check: Bytes() and ReadFrom of API-built messages against the model, and
-   parse(serialise m) = m, serialise(parse(serialise m)) = serialise m on the implementation. *)
-From Verif Require Import Base.Bytes Msg.Message Msg.MessageP.
+   the serialised layout (C09_layout); the decimal size fields for every length below 2^63
+   (C09_sizes); the header block written by Header.Write is read back line for line by the
+   model of net/textproto.ReadMIMEHeader for every header whose lines are well formed
+   (C09_header_roundtrip), and the whole message comes back (C09_message_roundtrip).
+   Still decided per run only: that the re-serialisation of the parsed message is byte-identical
+   (last clause of the full statement below), and everything about encoded words, charsets and
+   the RFC 5322 date forms, which are library code passed through or modelled for the four
+   Winlink layouts. *)
+From Coq Require Import List NArith ZArith.
+From Verif Require Import Base.Bytes Msg.Message Msg.MessageP Msg.HeaderRT Msg.SizesP.
+Import ListNotations.
 Open Scope N_scope.
 
 (* FULL STATEMENT (not asserted): normalised header, body and attachments come back *)
@@ -62,6 +68,41 @@ Theorem C09_layout : forall m hb,
        ++ flat_map (fun f => f ++ CRLF) (mfiles m)).
 Proof. exact message_write_layout. Qed.
 Print Assumptions C09_layout.
+
+(* Decimal size fields: Body: and File: sizes are read back exactly for every section shorter
+   than 2^63 bytes, so the hypothesis sizes_ok of C09_sections/C09_files always holds. *)
+Theorem C09_sizes : forall datas : list bytes,
+  Forall (fun d => N.of_nat (length d) < 9223372036854775808) datas -> sizes_ok datas.
+Proof. exact sizes_ok_all. Qed.
+Print Assumptions C09_sizes.
+
+(* The header block: for EVERY header whose written lines are well formed (key a canonical
+   field name; value non-empty, printable, not bordered by blanks), Header.Write's output
+   followed by the blank line is read back as exactly those lines — Mid first, the other
+   fields in sorted order, repeated fields in their order — and the reader stops at the body. *)
+Theorem C09_header_roundtrip : forall h hb rest,
+  header_write h = Some hb -> Forall (fun kv => wf_line (fst kv) (snd kv)) (lines_of h) ->
+  read_mime_header (S (length (lines_of h))) (hb ++ CRLF ++ rest) [] = (fold_left add_line (lines_of h) [], HErrNone, rest).
+Proof. exact header_roundtrip. Qed.
+Print Assumptions C09_header_roundtrip.
+
+(* The whole message: header, body and attachments of arbitrary bytes come back. *)
+Theorem C09_message_roundtrip : forall (m : message) (files : list (bytes * bytes)) hb,
+  let norm := fold_left add_line (lines_of (mhdr m)) [] in
+  header_write (mhdr m) = Some hb ->
+  Forall (fun kv => wf_line (fst kv) (snd kv)) (lines_of (mhdr m)) ->
+  parse_date_ok (hget (mhdr m) str_Date) = Some true ->
+  parse_date_ok (hget norm str_Date) = Some true ->
+  atoi_ignore_err (hget norm str_Body) = Z.of_nat (length (mbody m)) ->
+  mfiles m = map snd files ->
+  hvalues norm str_File = map (fun nd => file_value (fst nd) (snd nd)) files ->
+  sizes_ok (map snd files) ->
+  exists b, message_write m = WOk b /\
+    read_from b = {| p_hdr := norm; p_body := mbody m;
+                     p_files := map (fun nd => {| pf_data := snd nd; pf_name := fst nd; pf_err := false |}) files;
+                     p_status := RfOk |}.
+Proof. exact message_roundtrip. Qed.
+Print Assumptions C09_message_roundtrip.
 
 (* an instance of the full statement, computed by the kernel (a test of the statement) *)
 Example C09_instance :
